@@ -23,17 +23,17 @@ RULE = ("Hypothesis: (configuration, piece). Configuration: 1-4 tracks, all 16 c
         "Distinct by case digest.")
 ASSUMPTIONS = ["velocity bin edges are read from the tokeniser object and compared as numbers",
                "time signature values may come back simplified (6/8 -> 3/4); only bar lengths are compared"]
-TIERS = {"quick": dict(shards=8, examples=700), "thorough": dict(shards=16, examples=15000)}
+TIERS = {"quick": dict(shards=8, examples=700), "thorough": dict(size=2, shards=16, examples=15000)}
 
 
 @st.composite
-def _case(draw, shard, nshards):
+def _case(draw, shard, nshards, size=1):
     cfg = draw(T.config(shard=shard, nshards=nshards))
-    return {"cfg": cfg, "piece": draw(T.piece(cfg))}
+    return {"cfg": cfg, "piece": draw(T.piece(cfg, max_bars=6 + 3 * (size - 1), max_notes=10 * size))}
 
 
 def strategy(params, shard, nshards):
-    return _case(shard, nshards)
+    return _case(shard, nshards, size=params.get("size", 1) if shard % 2 else 1)
 
 
 def check(case):
